@@ -289,6 +289,13 @@ func checkC17CLI(c CarrierCLICase, r *rec.Rec) error {
 		return viol("%s: -p prints unreadable JSON %q", desc, resP.Stdout)
 	}
 	if !got.Equals(v1Node(c.B), md...) {
+		if jdx.IsMerge(c.Opts) && strings.TrimSpace(res.Stdout) == "{}" {
+			// -f=merge prints the RFC 7386 document, not what Render gives, so
+			// this round trip is C18's; the document {} for a non-object a and
+			// b = {} is its known finding D17 and is not demanded here.
+			r.Class("outside:merge-format {} for non-object a (C18, D17)")
+			return nil
+		}
 		return viol("%s: the printed diff applied with -p gives %s, not b\ndiff:\n%s", desc, resP.Stdout, res.Stdout)
 	}
 	nontrivial := res.Status == 1
